@@ -20,7 +20,7 @@ vars == <<c, ph, x>>
 Init == c = 0 /\ ph = 0 /\ x = {}
 Next == \/ ph = 0 /\ ph' = 1 /\ c' \in 1..16 /\ x' = x
         \/ ph = 1 /\ ph' = 2 /\ c' \in {i \in 1..NR : i % 16 = c % 16} /\ x' = x
-        \/ ph = 2 /\ ph' = 3 /\ c' = c /\ Recs[c].op = "extrema" /\ x' \in SUBSET ToSet(Recs[c].K)
+        \/ ph = 2 /\ ph' = 3 /\ c' = c /\ Recs[c].op \in {"extrema", "bounds"} /\ x' \in SUBSET ToSet(Recs[c].K)
 Spec == Init /\ [][Next]_vars
 R == Recs[c]
 Clause(name, cond) == cond \/ (PrintT(<<"QVVIOL", name, c, R.id>>) /\ FALSE)
